@@ -235,6 +235,44 @@ func (v *Verifier) VerifyStructural(name string, propNames []string) *FuncResult
 						if !isHumanerGlobal(args[5]) {
 							bad = append(bad, fn.String()+" ("+v.posStr(in.Pos())+"): humaner is not counts.Metric / counts.Binary")
 						}
+						// the object cited beside a metric is that metric's own
+						// witness: HistorySize field X is cited with field
+						// X{Blob,Tree,Commit,Tag} (C08), or with nothing
+						histField := func(x ssa.Value) string {
+							if mi, ok := x.(*ssa.MakeInterface); ok {
+								x = mi.X
+							}
+							u, ok := x.(*ssa.UnOp)
+							if !ok || u.Op != token.MUL {
+								return ""
+							}
+							fa, ok := u.X.(*ssa.FieldAddr)
+							if !ok {
+								return ""
+							}
+							pt, ok := fa.X.Type().Underlying().(*types.Pointer)
+							if !ok {
+								return ""
+							}
+							nt, ok := pt.Elem().(*types.Named)
+							st, ok2 := pt.Elem().Underlying().(*types.Struct)
+							if !ok || !ok2 || nt.Obj().Name() != "HistorySize" {
+								return ""
+							}
+							return st.Field(fa.Field).Name()
+						}
+						if pk, isNil := args[3].(*ssa.Const); !(isNil && pk.Value == nil) {
+							pf, vf := histField(args[3]), histField(args[4])
+							okW := false
+							for _, suf := range []string{"Blob", "Tree", "Commit", "Tag"} {
+								if vf != "" && pf == vf+suf {
+									okW = true
+								}
+							}
+							if !okW {
+								bad = append(bad, fn.String()+" ("+v.posStr(in.Pos())+"): metric "+vf+" is cited with witness field "+pf)
+							}
+						}
 					case *ssa.Store:
 						if g, ok := in.Addr.(*ssa.Global); ok && g.Pkg.Pkg.Path() == mp+"/counts" && (g.Name() == "Metric" || g.Name() == "Binary") {
 							if fn.String() != mp+"/counts.init" {
@@ -278,6 +316,75 @@ func (v *Verifier) VerifyStructural(name string, propNames []string) *FuncResult
 		}
 		sort.Strings(bad)
 		mk(len(bad) == 0 && n > 0 && okTop, fmt.Sprintf("all %d newItem call sites pass a positive finite constant reference value and counts.Metric/Binary (written only by counts.init); contents() returns an unnamed top-level section: %v; offending: %v", n, okTop, bad))
+	case "atomic-consistency":
+		// A memory cell that is accessed through sync/atomic anywhere is
+		// accessed through sync/atomic everywhere (outside constructors'
+		// composite literals): a plain read or write of such a field next to
+		// atomic accesses from another goroutine is a data race (C17), and a
+		// lost or torn update of the progress counter (C18).
+		atomicFields := map[string]bool{}
+		fieldKey := func(v ssa.Value) string {
+			fa, ok := v.(*ssa.FieldAddr)
+			if !ok {
+				return ""
+			}
+			pt, ok := fa.X.Type().Underlying().(*types.Pointer)
+			if !ok {
+				return ""
+			}
+			nt, ok := pt.Elem().(*types.Named)
+			st, ok2 := pt.Elem().Underlying().(*types.Struct)
+			if !ok || !ok2 || nt.Obj().Pkg() == nil {
+				return ""
+			}
+			return nt.Obj().Pkg().Path() + "." + nt.Obj().Name() + "." + st.Field(fa.Field).Name()
+		}
+		for _, fn := range v.moduleFuncs() {
+			for _, b := range fn.Blocks {
+				for _, in := range b.Instrs {
+					if c, ok := in.(*ssa.Call); ok {
+						if callee := c.Call.StaticCallee(); callee != nil && callee.Pkg != nil && callee.Pkg.Pkg.Path() == "sync/atomic" && len(c.Call.Args) > 0 {
+							if k := fieldKey(c.Call.Args[0]); k != "" {
+								atomicFields[k] = true
+							}
+						}
+					}
+				}
+			}
+		}
+		var bad []string
+		for _, fn := range v.moduleFuncs() {
+			for _, b := range fn.Blocks {
+				for _, in := range b.Instrs {
+					fa, ok := in.(*ssa.FieldAddr)
+					if !ok {
+						continue
+					}
+					k := fieldKey(fa)
+					if !atomicFields[k] {
+						continue
+					}
+					for _, ref := range *fa.Referrers() {
+						switch r := ref.(type) {
+						case *ssa.DebugRef:
+						case *ssa.Call:
+							if callee := r.Call.StaticCallee(); callee == nil || callee.Pkg == nil || callee.Pkg.Pkg.Path() != "sync/atomic" {
+								bad = append(bad, fn.String()+" passes "+k+" to a non-atomic call ("+v.posStr(r.Pos())+")")
+							}
+						default:
+							bad = append(bad, fn.String()+" accesses "+k+" without sync/atomic ("+v.posStr(fa.Pos())+")")
+						}
+					}
+				}
+			}
+		}
+		sort.Strings(bad)
+		var af []string
+		for k := range atomicFields {
+			af = append(af, k)
+		}
+		sort.Strings(af)
+		mk(len(bad) == 0, fmt.Sprintf("fields accessed through sync/atomic (%v) are accessed only through sync/atomic; offending: %v", af, bad))
 	case "resolver-encapsulation":
 		// Object-invariant methodology for InOrderPathResolver (A-OBJ-INV):
 		// its invariant is established by NewPathResolver and preserved by
